@@ -22,7 +22,8 @@ def check(solver):
 
 def cvc5_check(solver, tlimit=30):
     """cross-check an unsat verdict with cvc5 on the exported SMT-LIB2 (linear queries only); returns 'unsat'/'sat'/'unknown'"""
-    txt = '(set-logic ALL)\n' + solver.to_smt2()
+    fresh = z3.Solver(); fresh.add(solver if isinstance(solver, list) else solver.assertions())   # export from a solver that has not run (after check() z3 holds its preprocessed state)
+    txt = '(set-logic ALL)\n' + fresh.to_smt2()
     with tempfile.NamedTemporaryFile('w', suffix='.smt2', delete=False, dir=os.environ.get('GV_TMP', None)) as f:
         f.write(txt); fn = f.name
     try:
@@ -69,7 +70,7 @@ def prove(goal, assumptions=(), timeout=60.0, variants=None, cross=None, bitprec
     """goal(tr) -> Int/Bool-level formula that must hold for all inputs satisfying the assumptions.
        assumptions: z3 Bool terms over BV (translated) or callables tr -> formula.
        Returns Res: 'unsat' = proved; 'sat' = counterexample over the input variables (tr.vars names); 'unknown'."""
-    t_start = time.time(); abstract_sat = False; last = 'unknown'; info = []; approx_sat = None
+    t_start = time.time(); abstract_sat = False; last = 'unknown'; info = []; approx_sat = None; last_real = None
     for v in (variants or DEFAULT_VARIANTS):
         budget = max(2.0, timeout * v['share'])
         try:
@@ -91,13 +92,14 @@ def prove(goal, assumptions=(), timeout=60.0, variants=None, cross=None, bitprec
         if v['abstract'] and tr.nprod == 0 and any(x.startswith('real') for x in info): continue
         s = z3.SolverFor(v['logic']) if v['logic'] else z3.Solver()
         s.add(tr.side); s.add(asm); s.add(z3.Not(g))
+        if not v['abstract'] and v['limb_min'] == 0 and getattr(tr, 'approx', 0) == 0: last_real = list(tr.side) + list(asm) + [z3.Not(g)]    # kept as terms: a solver that has run rewrites its assertions
         r, dt = _check(s, budget * 1000)
         tag = '%s/limb%d/%s' % ('abs' if v['abstract'] else 'real', v['limb_min'], v['logic'] or 'default')
         info.append('%s:%s:%.2fs' % (tag, r, dt))
         if r == z3.unsat:
             res = Res('unsat', t=time.time() - t_start, variant=tag, info=' '.join(info))
             if (CROSS if cross is None else cross) and v['abstract'] or ((CROSS if cross is None else cross) and tr.nprod == 0):
-                c = cvc5_check(s); STATS['cvc5_checked'] += 1
+                c = cvc5_check(list(tr.side) + list(asm) + [z3.Not(g)]); STATS['cvc5_checked'] += 1
                 if c == 'unsat': STATS['cvc5_agree'] += 1
                 if c == 'sat': return Res('unknown', t=time.time() - t_start, variant=tag, info='SOLVER DISAGREEMENT z3=unsat cvc5=sat ' + ' '.join(info))
                 res.info += ' cvc5:' + c
@@ -116,6 +118,11 @@ def prove(goal, assumptions=(), timeout=60.0, variants=None, cross=None, bitprec
                 approx_sat = Res('sat', model=mv, t=time.time() - t_start, variant=tag + '(approximate bit operations)', info=' '.join(info)); break
             return Res('sat', model=mv, t=time.time() - t_start, variant=tag, info=' '.join(info))
         if time.time() - t_start > timeout: break
+    if last_real is not None and approx_sat is None and os.environ.get('GV_NO_CVC5') != '1':
+        # second solver: cvc5 on the exact (non-abstracted) integer encoding; only an 'unsat' answer is used
+        t1 = time.time(); c = cvc5_check(last_real, tlimit=max(5, int(timeout * 0.4))); dtc = time.time() - t1
+        STATS['queries'] += 1; STATS['solver_s'] += dtc; info.append('cvc5/real:%s:%.2fs' % (c, dtc))
+        if c == 'unsat': return Res('unsat', t=time.time() - t_start, variant='cvc5/real/limb0', info=' '.join(info))
     if bitprecise:
         st, mv, dt, note = _prove_bv(goal, assumptions, max(5.0, timeout * 0.5))
         info.append('bitprecise/bv256:%s:%.2fs%s' % (st, dt, (' ' + note) if note else ''))
